@@ -465,3 +465,93 @@ func aliasIsIfaceName(args []string, names []string) bool {
 	}
 	return false
 }
+
+// ---- corpus X: effects across methods and interfaces ---------------------------
+// Several methods per interface and several interfaces per run: the registry
+// and (if it leaked) scope state an earlier method leaves behind meets later
+// methods. Same-named packages force re-aliasing in the middle of a run;
+// later methods use parameter names equal to package names, to former
+// qualifiers, to numbered stems. Cases whose input has the shape of a recorded
+// finding (per the models) are dropped, so nothing can hide behind one.
+func CorpusCross(seed int64, tier string) []*Case {
+	rng := rand.New(rand.NewSource(seed*7919 + 11))
+	pkgs := []Pkg{dep("client", "one", "client"), dep("client", "two", "client"), dep("store", "m", "store"), dep("ctx", "n", "ctx")}
+	names := []string{"client", "store", "ctx", "s", "s1", "s2", "n", "x", "key", "oneclient", "twoclient", "v", "id", "sync"}
+	types := []T{Basic("string"), Basic("int"), Named(0, "T"), Named(1, "T"), Named(2, "T"), Named(3, "T"), errT, Basic("bool")}
+	var cases []*Case
+	n := 60
+	if tier == "thorough" {
+		n = 400
+	}
+	for i := 0; i < n; i++ {
+		nm := 3 + rng.Intn(3)
+		it := Iface{Name: fmt.Sprintf("X%03d", i)}
+		for j := 0; j < nm; j++ {
+			var pl []Param
+			switch rng.Intn(5) {
+			case 0: // unnamed, equal types: numbering
+				t := types[rng.Intn(2)]
+				for k := 0; k < 2+rng.Intn(2); k++ {
+					pl = append(pl, par("", t))
+				}
+			case 1: // one lone parameter with a stem-like name
+				pl = ps(par([]string{"s", "n", "s", "client", "store"}[rng.Intn(5)], types[rng.Intn(len(types))]))
+			default:
+				used := map[string]bool{}
+				for k := 0; k < 1+rng.Intn(3); k++ {
+					nmx := names[rng.Intn(len(names))]
+					if used[nmx] {
+						continue
+					}
+					used[nmx] = true
+					pl = append(pl, par(nmx, types[rng.Intn(len(types))]))
+				}
+			}
+			var rl []Param
+			if rng.Intn(2) == 0 {
+				rl = ps(par("", types[rng.Intn(len(types))]))
+			}
+			// one file cannot import two packages called client unaliased
+			which := rng.Intn(2)
+			fix := func(l []Param) {
+				for k := range l {
+					if l[k].T.K == "named" && (l[k].T.P == 0 || l[k].T.P == 1) {
+						l[k].T.P = which
+					}
+				}
+			}
+			fix(pl)
+			fix(rl)
+			it.Methods = append(it.Methods, meth(fmt.Sprintf("M%d%c", j, 'a'+rune(rng.Intn(3))), pl, rl))
+			it.Aliases = append(it.Aliases, map[int]string{})
+		}
+		// methods are walked in name order
+		sortMethods(&it)
+		src := newSrc("xsrc", pkgs, it)
+		cfg := Cfg{Dest: "implicit", Args: []string{it.Name}}
+		if i%4 == 1 {
+			cfg = Cfg{Dest: "other", Stub: true, Args: []string{it.Name}}
+		}
+		cases = append(cases, &Case{Origin: "cross:" + it.Name, Src: src, Cfg: cfg, Judge: []string{"C01", "C02", "C11", "C12", "C13", "C14"}, AutoNames: true, DropKF: true, Repeat: 2})
+	}
+	return cases
+}
+
+func sortMethods(it *Iface) {
+	for i := 1; i < len(it.Methods); i++ {
+		for j := i; j > 0 && it.Methods[j].Name < it.Methods[j-1].Name; j-- {
+			it.Methods[j], it.Methods[j-1] = it.Methods[j-1], it.Methods[j]
+		}
+	}
+	// distinct names
+	seen := map[string]bool{}
+	var ms []Method
+	for _, m := range it.Methods {
+		if !seen[m.Name] {
+			seen[m.Name] = true
+			ms = append(ms, m)
+		}
+	}
+	it.Methods = ms
+	it.Aliases = it.Aliases[:len(ms)]
+}
